@@ -150,13 +150,29 @@ def step (_ : Unit) (ws : List String) : Unit × String :=
         | some body => ((), joinSp [idx, hexOfBytes body, allDecoders t BEVE body])
         | none => bad idx
     | _, _, _, _ => bad idx
+  | ["form", idx, c, k, form, n, p] =>
+    -- the decoder's own element type in each wire form
+    match tyOf c k, n.toNat?, unhex p with
+    | some t, some n, some p =>
+      let w := if form = "complex" then 2 * t.width else t.width
+      if p.length ≠ n * w then bad idx
+      else
+        let body? : Option Bytes :=
+          if form = "regular" then some (encodeTypedRaw t n p)
+          else if form = "aligned" then some (encodeAlignedRaw t n p (baseOffset F.baseTerms 4))
+          else if form = "complex" then some (encodeComplexRaw t n p)
+          else none
+        match body? with
+        | some body => ((), joinSp [idx, hexOfBytes body, allDecoders t BEVE body])
+        | none => bad idx
+    | _, _, _ => bad idx
   | ["wrongfmt", idx, c, k, fmt, n, p] =>
     match tyOf c k, fmt.toNat?, n.toNat?, unhex p with
     | some t, some fmt, some n, some p =>
       if p.length ≠ n * t.width then bad idx
       else ((), joinSp [idx, allDecoders t fmt (encodeTypedRaw t n p)])
     | _, _, _, _ => bad idx
-  | ["cap", idx, _client, kind, c, k, plen, n, p] =>
+  | ["cap", idx, client, kind, c, k, plen, n, p] =>
     -- the frame the client helper writes (id zeroed) and, for the frame at base misalignments 0..7,
     -- whether the borrowing route borrows (b) or copies (c)
     match tyOf c k, plen.toNat?, n.toNat?, unhex p with
@@ -169,7 +185,10 @@ def step (_ : Unit) (ws : List String) : Unit × String :=
         if p.length ≠ n * t.width then bad idx
         else
           let path : Bytes := if plen = 0 then [] else 0x2f :: List.replicate (plen - 1) 0x63
-          let m := clientRequest F kd t 0 path (chunks t.width n p)
+          -- client token: sync | syncp | async | asyncp   (p = the entry point without a timeout)
+          let C := if client = "sync" ∨ client = "syncp" then F.syncClient else F.asyncClient
+          let timeout := client = "sync" ∨ client = "async"
+          let m := clientRequest F C kd timeout t 0 path (chunks t.width n p)
           let flag (mis : Nat) : Char :=
             match sliceRefHandler F t m.header.bodyFormat (mis + 48 + path.length) m.body with
             | .called i => if i.isBorrowed then 'b' else 'c'
